@@ -1,7 +1,7 @@
 use std::{
     collections::HashMap,
     fs::{self, File, OpenOptions},
-    io::{self, BufRead, BufReader, BufWriter, Write},
+    io::{self, BufRead, BufReader, BufWriter, Read, Seek, SeekFrom, Write},
     path::{Path, PathBuf},
     sync::Mutex,
 };
@@ -88,6 +88,53 @@ impl EventLog {
 
     pub fn replay_session(&self, session_id: &str) -> io::Result<Vec<Event>> {
         self.replay_stream(StreamKind::Session, session_id)
+    }
+
+    /// Seq of the last frame of a stream in the log, `None` when the stream has no frame.
+    ///
+    /// Reads the log backwards and stops at the first frame of the stream it meets, so the cost is
+    /// the distance of that frame from the end of the log, not the size of the log.  A line that
+    /// is not a frame is an error, as it is for `replay`.
+    pub fn last_seq(&self, stream_kind: StreamKind, stream_id: &str) -> io::Result<Option<u64>> {
+        const CHUNK_BYTES: u64 = 64 * 1024;
+        let mut file = File::open(&self.path)?;
+        let mut pos = file.metadata()?.len();
+        // Bytes of the log from `pos` up to the lines already examined.
+        let mut pending: Vec<u8> = Vec::new();
+        loop {
+            let step = pos.min(CHUNK_BYTES);
+            pos -= step;
+            file.seek(SeekFrom::Start(pos))?;
+            let mut chunk = vec![0u8; step as usize];
+            file.read_exact(&mut chunk)?;
+            chunk.extend_from_slice(&pending);
+            pending = chunk;
+
+            // Everything after the first newline is made of whole lines; at the start of the
+            // file the first line is whole too.
+            let whole_from = if pos == 0 {
+                0
+            } else {
+                match pending.iter().position(|b| *b == b'\n') {
+                    Some(nl) => nl + 1,
+                    None => continue,
+                }
+            };
+            let whole = pending.split_off(whole_from);
+            for line in whole.split(|b| *b == b'\n').rev() {
+                if line.is_empty() {
+                    continue;
+                }
+                let event: Event = serde_json::from_slice(line)
+                    .map_err(|err| io::Error::new(io::ErrorKind::InvalidData, err))?;
+                if event.stream_kind() == stream_kind && event.stream_id() == stream_id {
+                    return Ok(Some(event.seq));
+                }
+            }
+            if pos == 0 {
+                return Ok(None);
+            }
+        }
     }
 }
 
@@ -217,6 +264,46 @@ mod tests {
         let events = log.replay().expect("replay");
         assert_eq!(events.len(), 3);
         matches!(events[0].kind, EventKind::SessionStarted { .. });
+    }
+
+    #[test]
+    fn last_seq_scans_backwards_across_chunks_and_streams() {
+        let dir = tempdir().expect("tmp");
+        let log = EventLog::new(dir.path().join("events.jsonl")).expect("log");
+        assert_eq!(
+            log.last_seq(StreamKind::Session, "s1").expect("empty"),
+            None
+        );
+
+        let frame = |session_id: &str, seq: u64, len: usize| Event {
+            id: format!("{session_id}-{seq}"),
+            session_id: session_id.to_string(),
+            timestamp_ms: 0,
+            seq,
+            kind: EventKind::OutputTextDelta {
+                delta: "x".repeat(len),
+            },
+        };
+        log.append(&frame("s1", 0, 10)).expect("append");
+        log.append(&frame("s2", 0, 100_000)).expect("append");
+        log.append(&frame("s1", 1, 70_000)).expect("append");
+        for seq in 1..40 {
+            log.append(&frame("s2", seq, 5_000)).expect("append");
+        }
+
+        assert_eq!(
+            log.last_seq(StreamKind::Session, "s1").expect("s1"),
+            Some(1)
+        );
+        assert_eq!(
+            log.last_seq(StreamKind::Session, "s2").expect("s2"),
+            Some(39)
+        );
+        assert_eq!(log.last_seq(StreamKind::Session, "s3").expect("s3"), None);
+        assert_eq!(
+            log.last_seq(StreamKind::Continuity, "s1").expect("kind"),
+            None
+        );
     }
 
     #[test]
